@@ -26,7 +26,8 @@ RULE = (
     "whose cell values encode (variable, row, column), float64/float32/int64 data with optional NaN holes, default or custom dims, "
     "1-D axis vectors or 2-D meshgrids (C/F order, read-only), Dataset / named / unnamed DataArray inputs with coordinates declared in either "
     "order; plus clear non-meshgrids (deviation >= 10 % of the node spacing, transposed or ij-indexed arrays), wrong name counts, and nested uses "
-    "through BaseGridder.grid and project_grid; data and extra coordinates as numpy.ma.MaskedArray (some / no cells masked, -99999 stored under "
+    "through BaseGridder.grid and project_grid; name collisions (a DataArray pulled out of a grid by the name of one of its 1..3 extra coordinates, "
+    "variables / extra coordinates called easting or northing in grids with other dims); data and extra coordinates as numpy.ma.MaskedArray (some / no cells masked, -99999 stored under "
     "the mask: masked cells must come out as NaN in grid and table) and as lists of lists; large grids of >= 2**18 cells (450x600, 512x512, "
     "300x1000, ...) through make_xarray_grid -> grid_to_table for Dataset and DataArray inputs with every row compared; make_xarray_grid called with dims / extra_coords_names by keyword, POSITIONALLY (4th / 5th "
     "argument, default and custom dims, with and without extra coordinates) and all-keyword, each grid also compared with what the workload "
@@ -60,6 +61,10 @@ _QUICK_FLOORS = {
     "eval:make_grid_as_intended": 1000, "class:make_call_positional_dims_custom_dims": 80,
     "class:make_call_positional_dims_and_extra_coords_names_custom_dims": 150, "class:make_call_positional_with_extra_coordinates": 200,
     "class:make_call_positional_without_extra_coordinates": 150, "class:make_call_all_keywords": 140,
+    # name collisions
+    "class:table_dataarray_named_after_its_own_coordinate": 200, "class:table_own_coordinate_with_1_other_extra_coordinates": 50,
+    "class:table_own_coordinate_with_2_other_extra_coordinates": 50, "class:table_variable_or_extra_named_easting_with_other_dims": 40,
+    "class:table_variable_or_extra_named_northing_with_other_dims": 40,
     # containers: masked arrays (masked cells must come out as NaN), lists of lists
     "spelling:make_data=masked_some": 120, "spelling:make_data=masked_none": 50, "spelling:make_data=list_of_lists": 80,
     "spelling:make_extra_coordinate=masked_some": 80,
@@ -516,12 +521,20 @@ def install(tap, run):
         if in_domain:
             in_domain = all(tuple(grid.coords[c].dims) == dims for c in extras) and \
                 all(tuple(grid.coords[d].dims) == (d,) for d in dims)
-            all_names = [str(d) for d in dims] + [str(c) for c in extras] + [str(n) for n in names]
+            # a DataArray that IS one of its own non-index coordinates (grid.upward, grid["time"]): one column serves as both
+            own = kind != "dataset" and names[0] in extras and same(np.asarray(grid.values), np.asarray(grid.coords[names[0]].values))
+            all_names = [str(d) for d in dims] + [str(c) for c in extras] + [str(n) for n in names if not (own and n == names[0])]
             in_domain = in_domain and len(set(all_names)) == len(all_names)
         if not in_domain:
             run.count("skipped:table_grid_outside_domain")
             return
         witness = {"grid": grid, "kind": kind, "dims": list(dims), "raised": repr(ev.exc)}
+        if own:
+            run.count("class:table_dataarray_named_after_its_own_coordinate")
+            run.count("class:table_own_coordinate_with_%d_other_extra_coordinates" % (len(extras) - 1))
+        for clash in ("easting", "northing"):
+            if clash in [str(n) for n in names] + [str(c) for c in extras] and clash not in dims:
+                run.count("class:table_variable_or_extra_named_%s_with_other_dims" % clash)
         run.evaluated("grid_to_table")
         run.count("class:table_" + kind)
         if kind == "dataarray_named" and not grid.name:
@@ -545,7 +558,7 @@ def install(tap, run):
             problems.append("result is not a pandas.DataFrame")
         else:
             witness["table"] = table
-            want_cols = [dims[0], dims[1]] + list(extras) + list(names)
+            want_cols = [dims[0], dims[1]] + list(extras) + [n for n in names if not (own and n == names[0])]
             if sorted(str(c) for c in table.columns) != sorted(str(c) for c in want_cols):
                 problems.append("columns %r, expected (in any order) %r" % (list(table.columns), want_cols))
             elif len(table) != n0 * n1:
@@ -702,6 +715,13 @@ def gen_grid_inputs(rng, shape=None, force_2d=None):
     dims = DIM_CHOICES[0] if rng.random() < 0.45 else DIM_CHOICES[int(rng.integers(1, len(DIM_CHOICES)))]
     var_names = [str(v) for v in rng.choice(VAR_NAMES, size=n_vars, replace=False)]
     extra_names = [str(v) for v in rng.choice(EXTRA_NAMES, size=n_extra, replace=False)]
+    # names that collide with the DEFAULT dimension names while the grid uses other dims (accepted by the unchanged code)
+    if "easting" not in dims and rng.random() < 0.12:
+        clash = str(rng.choice(["easting", "northing"]))
+        if rng.random() < 0.6 or not extra_names:
+            var_names[0] = clash
+        else:
+            extra_names[0] = clash
     two_d = bool(rng.random() < 0.5) if force_2d is None else force_2d
     return dict(shape=shape, e_vec=e_vec, n_vec=n_vec, datas=datas, extras=extras, dims=dims, var_names=var_names,
                 extra_names=extra_names, two_d=two_d, scale=scale)
@@ -952,6 +972,11 @@ def _stream_table(run, rng, vu, xr):
         grid, form = build_xarray(cfg, rng, xr)
         table = vu.grid_to_table(grid)
         run.count("class:built_" + form)
+        if cfg["extra_names"] and rng.random() < 0.6:
+            # an extra coordinate pulled out of the grid (grid.upward, grid["time"]): a DataArray named after one of its own
+            # non-index coordinates; every other extra coordinate must still be a column
+            pulled = grid[str(rng.choice(cfg["extra_names"]))]
+            vu.grid_to_table(pulled)
     run.sample("grid_to_table", {"form": form, "shape": cfg["shape"], "dims": cfg["dims"], "coords_declared": [str(c) for c in grid.coords],
                                  "table_columns": [str(c) for c in table.columns], "table_head": table.head(4)})
 
